@@ -48,6 +48,7 @@ func runC18(l *core.Ledger) {
 	// "every request answered" includes the request that gets into the queue behind the sender's back
 	// at Close: drained by the sender, or answered by enqueue's re-check after the hand-off (C12-X4 re-run)
 	l.With(map[string]string{"C12-X4": "C18-Z1"}, func() { c12X4(l, r) })
+	c18Z4(l, r)
 
 	// ---- Z2
 	table := map[string]string{
@@ -188,4 +189,96 @@ func c18Retained(l *core.Ledger, key string, v ssa.Value, pos token.Pos) {
 	}
 	walk(v)
 	l.Check(bad == "", "C18-Z3", key, pos, "referenced only from the call frame, the call goroutine's state and router entries", "per-call allocation is retained beyond the call: "+bad)
+}
+
+// c18Z4: a context derived for a stream is released when the stream is not
+// created. context.WithCancel registers the child with its parent (the node's
+// context, which lives until Close); a creation path that returns the NodeStream
+// error without calling the cancel function leaves one registration behind per
+// attempt - per call, on a node that cannot be reached.
+func c18Z4(l *core.Ledger, r *rt) {
+	l.Rule("C18-Z4", "every function that opens a NodeStream on a context it has just derived with context.WithCancel calls that cancel function on every path from the error edge of the creation to its return")
+	n := 0
+	for _, f := range allFuncs(l.Prog, r.pkg) {
+		f := f
+		sx.AllInstrs(f, func(nd sx.Node, in ssa.Instruction) {
+			c, ok := in.(*ssa.Call)
+			if !ok || !c.Call.IsInvoke() || c.Call.Method.Name() != "NodeStream" || len(c.Call.Args) == 0 {
+				return
+			}
+			// the context argument: result #0 of a context.WithCancel in this function (directly or through the field it was stored in)
+			var wc *ssa.Call
+			sx.AllInstrs(f, func(_ sx.Node, in2 ssa.Instruction) {
+				if c2, isCall := in2.(*ssa.Call); isCall && calleeIs(&c2.Call, "context.WithCancel") && sx.InstrDominates(f, c2, nd) {
+					wc = c2
+				}
+			})
+			if wc == nil {
+				return
+			}
+			n++
+			key := fmt.Sprintf("%s/stream-context-released#%d", fnKey(f), n)
+			m := func(o sx.Origin) bool { return o.Kind == sx.KExtract && o.V == ssa.Value(c) && o.Index == 1 }
+			var errEdges []sx.Edge
+			sx.AllInstrs(f, func(_ sx.Node, in2 ssa.Instruction) {
+				if ifi, isIf := in2.(*ssa.If); isIf && isErrNonNil(ifi, m) != 0 {
+					errEdges = append(errEdges, errEdge(ifi, m, true))
+				}
+			})
+			if len(errEdges) == 0 {
+				l.Bad("C18-Z4", key, c.Pos(), "the error of the stream creation is not tested")
+				return
+			}
+			isCancel := func(x sx.Node) bool {
+				cc, isCall := x.Instr().(*ssa.Call)
+				if !isCall || cc.Call.IsInvoke() || cc.Call.StaticCallee() != nil {
+					return false
+				}
+				return sx.All(sx.Origins(cc.Call.Value), func(o sx.Origin) bool {
+					if o.Kind == sx.KExtract && o.V == ssa.Value(wc) && o.Index == 1 {
+						return true
+					}
+					return o.Kind == sx.KField && o.Field != nil && o.Field.Name() == "cancelStream"
+				})
+			}
+			ok2 := true
+			var at token.Pos
+			for _, e := range errEdges {
+				// the first error test may sit before the unlock and a second one after it: start from each
+				if w, must := sx.MustPassThrough(sx.Node{B: e.To, I: -1}, isCancel, sx.IsReturn); !must {
+					// a cancel executed before this edge on the same error condition also counts
+					if !edgeAfterCancel(f, errEdges, isCancel, e) {
+						ok2 = false
+						at = sx.PosOf(w.Instr())
+					}
+				}
+			}
+			if ok2 {
+				l.OK("C18-Z4", key, c.Pos(), "the derived context is cancelled when the stream is not created")
+			} else {
+				l.Bad("C18-Z4", key, at, "the function returns the NodeStream error without cancelling the context it derived for the stream: the child context stays registered with the node's context until the manager is closed - one per attempt, i.e. per call on a node that cannot be reached")
+			}
+		})
+	}
+	l.Floor("C18-Z4", n, 2, "stream creations on a freshly derived context")
+}
+
+// edgeAfterCancel: edge e (an error edge of the creation) is only reached after a cancel
+// that itself lies behind another error edge of the same creation (two tests of one error,
+// e.g. one inside and one outside a critical section).
+func edgeAfterCancel(f *ssa.Function, errEdges []sx.Edge, isCancel func(sx.Node) bool, e sx.Edge) bool {
+	found := false
+	sx.AllInstrs(f, func(nd sx.Node, _ ssa.Instruction) {
+		if !isCancel(nd) {
+			return
+		}
+		if !edgesDominate(f, errEdges, nd) {
+			return
+		}
+		// every way to e passes... approximation: the cancel reaches e, and e's If is not reachable from the creation on a path that takes no error edge
+		if _, reach := sx.Reach(nd, func(x sx.Node) bool { return x.B == e.From && x.I == len(x.B.Instrs)-1 }, sx.Query{}); reach {
+			found = true
+		}
+	})
+	return found
 }
